@@ -305,6 +305,21 @@ pub enum Op {
     HoldUntilTimeout,
 }
 
+/// Periods are written as `u64` nanoseconds; values from `HUGE_PERIOD` on stand for periods
+/// beyond the range of a `u64` nanosecond count (about 584.5 years): `2^64 + (p - 2^63)` ns.
+pub const HUGE_PERIOD: u64 = 1 << 63;
+pub fn period_ns(p: u64) -> u128 {
+    if p >= HUGE_PERIOD {
+        (1u128 << 64) + (p - HUGE_PERIOD) as u128
+    } else {
+        p as u128
+    }
+}
+pub fn period_dur(p: u64) -> std::time::Duration {
+    let ns = period_ns(p);
+    std::time::Duration::new((ns / 1_000_000_000) as u64, (ns % 1_000_000_000) as u32)
+}
+
 impl Op {
     /// Operations that never suspend (allowed in the handlers of a node with synchronous inputs).
     pub fn is_sync(&self) -> bool {
